@@ -16,3 +16,90 @@ package iparser
 //@   ensures fresh(result) && result != nil && len(result.ParseErrors) == 0 && result.KnowledgeContext == ctx
 //@   modifies nothing
 //@   trusted stack.New() of golang-collections is outside the loaded contract set
+
+//@ func (*GengineParserListener).AddError
+//@   props C20 C10
+//@   requires g != nil
+//@   ensures len(g.ParseErrors) == old(len(g.ParseErrors)) + 1
+//@   modifies g.ParseErrors
+//@   trusted appends the message of e; error.Error() is an arbitrary method
+
+// line bookkeeping (C20): when a node that cites its position in error messages is handed to its parent, its LineNum
+// is the line of the start token of the parse context the walker passed to this callback (and Code its text).
+// Trusted: that the walker passes the construct's own context and that ANTLR's token line is the 1-based text line.
+//@ func (*GengineParserListener).ExitAssignment
+//@   props C20
+//@   requires g != nil && ctx != nil
+//@   ghost handed int = 0
+//@   oncall base.AssignmentHolder.AcceptAssignment
+//@     assert [C20] positioned: arg0 != nil && arg0.LineNum == tokLine(startTok(ctx.BaseParserRuleContext)) && arg0.Column == tokCol(startTok(ctx.BaseParserRuleContext)) && arg0.Code == ctxText(ctx.BaseParserRuleContext)
+//@     after handed := handed + 1
+//@   ensures [C20] once: old(len(g.ParseErrors)) == 0 ==> handed == 1
+
+//@ func (*GengineParserListener).ExitMathExpression
+//@   props C20
+//@   requires g != nil && ctx != nil
+//@   ghost handed int = 0
+//@   oncall base.MathExpressionHolder.AcceptMathExpression
+//@     assert [C20] positioned: arg0 != nil && arg0.LineNum == tokLine(startTok(ctx.BaseParserRuleContext)) && arg0.Column == tokCol(startTok(ctx.BaseParserRuleContext)) && arg0.Code == ctxText(ctx.BaseParserRuleContext)
+//@     after handed := handed + 1
+//@   ensures [C20] once: old(len(g.ParseErrors)) == 0 ==> handed == 1
+
+//@ func (*GengineParserListener).ExitExpression
+//@   props C20
+//@   requires g != nil && ctx != nil
+//@   ghost handed int = 0
+//@   oncall base.ExpressionHolder.AcceptExpression
+//@     assert [C20] positioned: arg0 != nil && arg0.LineNum == tokLine(startTok(ctx.BaseParserRuleContext)) && arg0.Column == tokCol(startTok(ctx.BaseParserRuleContext)) && arg0.Code == ctxText(ctx.BaseParserRuleContext)
+//@     after handed := handed + 1
+//@   ensures [C20] once: old(len(g.ParseErrors)) == 0 ==> handed == 1
+
+//@ func (*GengineParserListener).ExitExpressionAtom
+//@   props C20
+//@   requires g != nil && ctx != nil
+//@   ghost handed int = 0
+//@   oncall base.ExpressionAtomHolder.AcceptExpressionAtom
+//@     assert [C20] positioned: arg0 != nil && arg0.LineNum == tokLine(startTok(ctx.BaseParserRuleContext)) && arg0.Column == tokCol(startTok(ctx.BaseParserRuleContext)) && arg0.Code == ctxText(ctx.BaseParserRuleContext)
+//@     after handed := handed + 1
+//@   ensures [C20] once: old(len(g.ParseErrors)) == 0 ==> handed == 1
+
+//@ func (*GengineParserListener).ExitMethodCall
+//@   props C20
+//@   requires g != nil && ctx != nil
+//@   ghost handed int = 0
+//@   oncall base.MethodCallHolder.AcceptMethodCall
+//@     assert [C20] positioned: arg0 != nil && arg0.LineNum == tokLine(startTok(ctx.BaseParserRuleContext)) && arg0.Column == tokCol(startTok(ctx.BaseParserRuleContext)) && arg0.Code == ctxText(ctx.BaseParserRuleContext)
+//@     after handed := handed + 1
+//@   ensures [C20] once: old(len(g.ParseErrors)) == 0 ==> handed == 1
+
+//@ func (*GengineParserListener).ExitThreeLevelCall
+//@   props C20
+//@   requires g != nil && ctx != nil
+//@   ghost handed int = 0
+//@   oncall base.ThreeLevelCallHolder.AcceptThreeLevelCall
+//@     assert [C20] positioned: arg0 != nil && arg0.LineNum == tokLine(startTok(ctx.BaseParserRuleContext)) && arg0.Column == tokCol(startTok(ctx.BaseParserRuleContext)) && arg0.Code == ctxText(ctx.BaseParserRuleContext)
+//@     after handed := handed + 1
+//@   ensures [C20] once: old(len(g.ParseErrors)) == 0 ==> handed == 1
+
+//@ func (*GengineParserListener).ExitFunctionCall
+//@   props C20
+//@   requires g != nil && ctx != nil
+//@   ghost handed int = 0
+//@   oncall base.FunctionCallHolder.AcceptFunctionCall
+//@     assert [C20] positioned: arg0 != nil && arg0.LineNum == tokLine(startTok(ctx.BaseParserRuleContext)) && arg0.Column == tokCol(startTok(ctx.BaseParserRuleContext)) && arg0.Code == ctxText(ctx.BaseParserRuleContext)
+//@     after handed := handed + 1
+//@   ensures [C20] once: old(len(g.ParseErrors)) == 0 ==> handed == 1
+
+//@ func (*GengineParserListener).ExitMapVar
+//@   props C20
+//@   requires g != nil && ctx != nil
+//@   ghost handed int = 0
+//@   oncall base.MapVarHolder.AcceptMapVar
+//@     assert [C20] positioned: arg0 != nil && arg0.LineNum == tokLine(startTok(ctx.BaseParserRuleContext)) && arg0.Column == tokCol(startTok(ctx.BaseParserRuleContext)) && arg0.Code == ctxText(ctx.BaseParserRuleContext)
+//@     after handed := handed + 1
+//@   ensures [C20] once: old(len(g.ParseErrors)) == 0 ==> handed == 1
+
+//@ func (*GengineParserListener).ExitForRangeStmt
+//@   props C20
+//@   requires g != nil && ctx != nil
+//@   ensures [C20] positioned: old(len(g.ParseErrors)) == 0 ==> forRangeStmt.LineNum == tokLine(startTok(ctx.BaseParserRuleContext)) && forRangeStmt.Code == ctxText(ctx.BaseParserRuleContext)
